@@ -106,6 +106,26 @@ def reference_main():
             out["%d:%s" % (mid, target)] = dict(sha=hashlib.sha256(data).hexdigest(), n=len(data),
                                                 cells=cells(data) if target.startswith("excel") else None,
                                                 header=data[:400].decode("latin1") if not target.startswith("excel") else "", energies=energies(tab))
+    # the same through the command line, with edits and species filters (option processing must not depend on the seed either)
+    import tempfile, shutil
+    from engines.layout import run_cli
+    d = tempfile.mkdtemp(prefix="verif-session-")
+    try:
+        scenarios = {
+            "cli-add": (2, "LAMMPS", ["-a", "Pair:Xe-Xe=as.lj 0.02 4.0", "-a", "Pair:Kr-Kr=as.lj 0.01 3.6", "-a", "Pair:Ar-Ar=as.lj 0.01 3.4", "-a", "Pair:Ne-Ne=as.constant 1"]),
+            "cli-edit": (2, "GULP", ["-e", "Pair:O-O=f 3.0 1.0", "-e", "Tabulation:nr=9", "-r", "Pair:U-Zr", "-a", "Pair:He-He=as.zero", "-a", "Potential-Form:k(r)=r"]),
+            "cli-exclude": (1, "setfl", ["--exclude-species", "Fe", "Ag"]),
+            "cli-include": (4, "setfl_fs", ["--include-species", "Fe", "Al", "Ni"]),
+        }
+        for name, (mid, target, args) in scenarios.items():
+            inp, outp = os.path.join(d, name + ".ini"), os.path.join(d, name + ".out")
+            with open(inp, "w") as f:
+                f.write(PRE % target + MODELS[mid]["text"])
+            status, so, se = run_cli([inp, outp] + args)
+            data = open(outp, "rb").read() if os.path.exists(outp) else b""
+            out[name] = dict(sha=hashlib.sha256(data).hexdigest() + ":%s" % status, n=len(data), cells=None, header=data[:600].decode("latin1"), energies=[])
+    finally:
+        shutil.rmtree(d, ignore_errors=True)
     json.dump(out, sys.stdout)
 
 
@@ -194,17 +214,17 @@ def main(prop, tier, seed):
         for hs in seeds[1:]:
             for key, v in refs[hs].items():
                 run.evaluations += 1
-                excel = key.split(":")[1].startswith("excel")
+                excel = ":" in key and key.split(":")[1].startswith("excel")
                 if v["sha"] != base[key]["sha"]:
                     same_cells = excel and v["cells"] == base[key]["cells"]
                     first = ""
                     if not excel:
                         a, b = base[key]["header"].splitlines(), v["header"].splitlines()
                         first = next(("line %d: %r vs %r" % (i + 1, x, y) for i, (x, y) in enumerate(zip(a, b)) if x != y), "")
-                    run.violation(dict(engine="session", clause="hash-seed", excel=excel, same_cells=same_cells, model=int(key.split(":")[0])),
+                    run.violation(dict(engine="session", clause="hash-seed", excel=excel, same_cells=same_cells, model=key.split(":")[0]),
                                   "[hash-seed] output %s differs between PYTHONHASHSEED=%d and %d %s%s" % (key, seeds[0], hs, first, " (cells equal)" if same_cells else ""), dict(key=key))
                 if v["energies"] != base[key]["energies"]:
-                    run.violation(dict(engine="session", clause="hash-seed-energy", excel=excel, same_cells=False, model=int(key.split(":")[0])),
+                    run.violation(dict(engine="session", clause="hash-seed-energy", excel=excel, same_cells=False, model=key.split(":")[0]),
                                   "[hash-seed] energies of %s differ between PYTHONHASHSEED=%d and %d" % (key, seeds[0], hs), dict(key=key))
         run.replayed += len(seeds) * len(base)
         # ---- histories within one process, against the references
